@@ -45,11 +45,12 @@ Theorem C11_unsafe_refuted_abbrev :
 Proof. exists ["-is"; "d"]. split; [reflexivity|]. vm_compute. discriminate. Qed.
 Print Assumptions C11_unsafe_refuted_abbrev.
 
-(* the abbreviation -i is ambiguous: parser.error, SystemExit(2) *)
-Theorem C11_unsafe_refuted_abbrev_exit :
-  exists argv, existsb cl_abbrev argv = true /\ parse_args argv = RExit.
-Proof. exists ["-DX"; "-i"]. split; reflexivity. Qed.
-Print Assumptions C11_unsafe_refuted_abbrev_exit.
+(* the abbreviation -i is ambiguous: parser.error before any action ran; since the third repair an
+   ArgumentError, caught: a warning and an EMPTY configuration (-DX is lost) instead of SystemExit(2) *)
+Theorem C11_unsafe_refuted_abbrev_ambiguous :
+  exists argv, existsb cl_abbrev argv = true /\ differs argv /\ parse_args argv = RWarned acc0.
+Proof. exists ["-DX"; "-i"]. split; [reflexivity|]. split; [vm_compute; discriminate|reflexivity]. Qed.
+Print Assumptions C11_unsafe_refuted_abbrev_ambiguous.
 
 Theorem C11_unsafe_refuted_dashdash :
   exists argv, existsb cl_dashdash argv = true /\ differs argv.
@@ -81,11 +82,11 @@ Theorem C11_argument_error_contained : forall argv : list string, parse_args arg
 Proof. exact never_raises. Qed.
 Print Assumptions C11_argument_error_contained.
 
-(* FULL (all argument vectors, no [safe]): unless the literal argument "-i" occurs - the one abbreviation that is
-   ambiguous between -isystem and -include, see C11_unsafe_refuted_abbrev_exit - parse_args always returns a
-   configuration: either normally or through the caught-ArgumentError warning branch.  Nothing else aborts. *)
+(* FULL (all argument vectors, no [safe]): parse_args always returns a configuration, either normally or through
+   the caught-ArgumentError warning branch.  Nothing aborts the analysis (generated c11_argerror_caught and
+   c11_error_raises are both true). *)
 Theorem C11_no_abort : forall argv : list string,
-  ~ In "-i" argv -> exists a, parse_args argv = ROk a \/ parse_args argv = RWarned a.
+  exists a, parse_args argv = ROk a \/ parse_args argv = RWarned a.
 Proof. exact no_abort. Qed.
 Print Assumptions C11_no_abort.
 
